@@ -31,13 +31,21 @@ def big_module(name):
 MODEL_FRAME = "comp i8[*,*,0] - 1 1 3 I1; o16[*,*,0] I2; n20 I3; q64[*,*,0]o16[1,1,0]"
 
 
+_content_cache = {}
+
+
 def content(seed, n):
     """byte i of the generator of harness/moddrv_c18v.inc"""
+    if (seed, n) in _content_cache:
+        return _content_cache[(seed, n)]
     out = bytearray(n)
     x = seed
     for i in range(n):
         x = (x * 1103515245 + 12345) & 0x7fffffff
         out[i] = (x >> 16) & 0xff
+    if len(_content_cache) > 400:
+        _content_cache.clear()
+    _content_cache[(seed, n)] = bytes(out)
     return bytes(out)
 
 
@@ -123,6 +131,11 @@ def int_octets(v):
     while not -(1 << (8 * n - 1)) <= v < (1 << (8 * n - 1)):
         n += 1
     return v.to_bytes(n, "big", signed=True)
+
+
+def inner_bytes(kind, n, seed):
+    """the complete encoding of the row value (whole octets, at least one): the contents of the open type"""
+    return to_bytes(inner_bits(kind, n, seed))
 
 
 def frame_uper(kind, idv, n, seed, tail, flag):
